@@ -46,7 +46,7 @@ type svScn struct {
 	ctxs  []mangos.Context
 	pctxs []protocol.Context
 	pipes map[string]*vt.Pipe
-	id2p  map[uint32]string
+	ids   *hx.IDMap
 	npipe int
 	base  uint32
 	hist  [][]uint32
@@ -93,7 +93,7 @@ func (c *svScn) snap() {
 	}
 	sq := map[string]interface{}{}
 	for id, n := range sn.SendQ {
-		sq[c.id2p[id]] = n
+		sq[c.ids.Name(id)] = n
 	}
 	kv = append(kv, "sendq", sq)
 	c.s.Rec.Emit("snap", kv...)
@@ -231,12 +231,13 @@ func (c *svScn) step(st string) {
 func runSurveyor(t *testing.T, cfg svCfg) sim.Result {
 	return sim.Run(t, 10*time.Second, func(s *sim.S) {
 		defer withLedger(s.Rec)()
-		c := &svScn{s: s, cfg: cfg, pipes: map[string]*vt.Pipe{}, id2p: map[uint32]string{}}
+		baseIDs := hx.BaseIDs()
+		c := &svScn{s: s, cfg: cfg, pipes: map[string]*vt.Pipe{}, ids: hx.NewIDMap()}
 		s.Net.Decode = c.decode
 		c.proto = surveyor.NewProtocol()
 		rp := &hx.RecProto{Protocol: c.proto, Rec: s.Rec, Early: true}
 		c.sock = protocol.MakeSocket(rp)
-		hx.Hook(c.sock, s.Rec, func(ev, name string, p mangos.Pipe) { c.id2p[p.ID()] = name })
+		hx.Hook(c.sock, s.Rec, func(ev, name string, p mangos.Pipe) { c.ids.Set(p.ID(), name) })
 		c.base = surveyor.VerifSnapshot(c.proto, nil).NextID
 		must := func(err error) {
 			if err != nil {
@@ -280,6 +281,7 @@ func runSurveyor(t *testing.T, cfg svCfg) sim.Result {
 		g := sim.Census()
 		sort.Strings(g)
 		s.Rec.Emit("census", "n", len(g), "g", fmt.Sprint(g))
+		hx.Final(s.Rec, c.sock, baseIDs)
 	})
 }
 
@@ -387,6 +389,7 @@ func TestSurveyor(t *testing.T) {
 		if out.Stop() {
 			break
 		}
+		cfg.Steps = closeMix(cfg.Steps, rng, []string{"recv c0", "survey c0", "recv c1", "survey c1", "conn", "cclose c1", "adv 1s", "recv c0", "sclose"})
 		res := runSurveyor(t, cfg)
 		out.Add(fmt.Sprintf("surveyor-%d", i), svCfgEv(cfg), fmt.Sprint(cfg), res)
 	}
